@@ -363,6 +363,7 @@ class RewritingContext:
         context: InsertionContext,
         *,
         implicit_cfi_procedure: bool = True,
+        modify_cache: Optional[ModifyCache] = None,
     ) -> Optional[Assembler.Result]:
         """
         Invokes a patch at a concrete location and assembles it.
@@ -374,6 +375,7 @@ class RewritingContext:
         :param context: The InsertionContext to pass to the patch.
         :param implicit_cfi_procedure: Should the patch implicitly be in a CFI
                                        procedure?
+        :param modify_cache: The modify cache, if in the middle of rewriting.
         :returns: The result of assembling the patch.
         """
 
@@ -416,8 +418,23 @@ class RewritingContext:
         elif isinstance(actual_block, gtirb.DataBlock):
             is_trivially_unreachable = True
 
+        target = Assembler.ModuleTarget(self._module)
+        if modify_cache is not None:
+            # The assembler reads Symbol.referent directly, so symbols whose
+            # referents are still pending in the reference cache (because an
+            # earlier modification moved or removed their block) need to be
+            # resolved before the assembler sees them.
+            reference_cache = modify_cache.reference_cache
+
+            def symbol_lookup(name: str) -> Iterator[gtirb.Symbol]:
+                for sym in self._module.symbols_named(name):
+                    reference_cache.get_referent(sym)
+                    yield sym
+
+            target.symbol_lookup = symbol_lookup
+
         assembler = Assembler(
-            self._module,
+            target,
             temp_symbol_suffix=f"_{self._patch_id}",
             trivially_unreachable=is_trivially_unreachable,
             implicit_cfi_procedure=implicit_cfi_procedure,
@@ -659,6 +676,7 @@ class RewritingContext:
                         actual_block,
                         actual_offset,
                         context,
+                        modify_cache=modify_cache,
                     )
                 else:
                     assembler_result = self._synthesize_result(
@@ -799,6 +817,7 @@ class RewritingContext:
             0,
             context,
             implicit_cfi_procedure=False,
+            modify_cache=modify_cache,
         )
         if assembler_result is None:
             return
